@@ -49,6 +49,9 @@ def student_construction(pm, ctx, u):
             if name == "multivariate_normal":
                 return input_array("z", ["N", "D"])
             if name == "chisquare":
+                size = args[1] if len(args) > 1 else kw.get("size")
+                if isinstance(size, (tuple, list)) and len(size) == 2:
+                    return input_array("u_chi2", ["N", "D"])          # one draw per coordinate: judged below
                 return input_array("u_chi2", ["N"])
             raise Unsupported("draw " + name)
         return _MISSING
@@ -99,7 +102,10 @@ def student_construction(pm, ctx, u):
         size = args[1] if len(args) > 1 else kw.get("size")
         okd = isinstance(dfa, TArr) and dfa.term == Poly.sym("df")
         oks = isinstance(size, Poly) and size == Poly.sym("N")
-        if okd and oks:
+        if okd and isinstance(size, (tuple, list)) and len(size) >= 2:
+            ctx.violation("C20-f", u.relpath, "multivariate_student_t", norm_src(c)[:120], "one chi-square variable is drawn per COORDINATE: the coordinates of a sample are then scaled "
+                          "independently and the joint law is not the multivariate Student-t (its off-diagonal covariances shrink)", line=c.lineno, site=site)
+        elif okd and oks:
             ctx.ok("C20-f", site, "u ~ chi2(df), one per sample")
         else:
             ctx.violation("C20-f", u.relpath, "multivariate_student_t", norm_src(c)[:120], "the mixing variable is not one chi-square(df) draw per sample", line=c.lineno, site=site)
@@ -186,6 +192,102 @@ def dependence_structure(pm, ctx, u):
                 ctx.unrecognised("C20-h", site, norm_src(x)[:60])
 
 
+def _int_eval(e, env):
+    """integer value of an arithmetic expression over n (//, *, +, -)"""
+    if isinstance(e, ast.Constant) and isinstance(e.value, int):
+        return e.value
+    if isinstance(e, ast.Name) and e.id in env:
+        return env[e.id]
+    if isinstance(e, ast.BinOp):
+        a, b = _int_eval(e.left, env), _int_eval(e.right, env)
+        return {ast.Add: lambda: a + b, ast.Sub: lambda: a - b, ast.Mult: lambda: a * b, ast.FloorDiv: lambda: a // b}[type(e.op)]()
+    if isinstance(e, ast.Call) and call_name(e) == "int" and len(e.args) == 1:
+        return int(_num_eval(e.args[0], env))
+    raise ValueError(norm_src(e))
+
+
+def _num_eval(e, env=None):
+    """value of a constant arithmetic expression (numbers, + - * /, unary minus, np.sqrt)"""
+    import math
+    env = env or {}
+    if isinstance(e, ast.Constant) and isinstance(e.value, (int, float)):
+        return float(e.value)
+    if isinstance(e, ast.Name) and e.id in env:
+        return float(env[e.id])
+    if isinstance(e, ast.UnaryOp) and isinstance(e.op, ast.USub):
+        return -_num_eval(e.operand, env)
+    if isinstance(e, ast.BinOp) and isinstance(e.op, (ast.Add, ast.Sub, ast.Mult, ast.Div)):
+        a, b = _num_eval(e.left, env), _num_eval(e.right, env)
+        return {ast.Add: a + b, ast.Sub: a - b, ast.Mult: a * b, ast.Div: a / b if b else float("nan")}[type(e.op)]
+    if isinstance(e, ast.Call) and call_name(e) in ("np.sqrt", "math.sqrt") and len(e.args) == 1:
+        return math.sqrt(_num_eval(e.args[0], env))
+    raise ValueError(norm_src(e))
+
+
+def sizes_and_rotations(pm, ctx, u):
+    import math
+    f = u.func("gstm")
+    defs = {s_.targets[0].id: s_ for s_ in f.body if isinstance(s_, ast.Assign) and len(s_.targets) == 1 and isinstance(s_.targets[0], ast.Name)}
+    gm = [c for c in ast.walk(f) if isinstance(c, ast.Call) and call_name(c) == "draw_gmm"]
+    stc = [c for c in ast.walk(f) if isinstance(c, ast.Call) and call_name(c) == "multivariate_student_t"]
+    site = "gstm: the two parts add up to n"
+    try:
+        a, b = gm[0].args[0], stc[0].args[0]
+        bad = None
+        for n in range(4, 21):
+            env = {"n": n}
+            for name in ("n_gaussian", "n_student"):
+                pass
+            def val(e, depth=0):
+                if isinstance(e, ast.Name) and e.id in defs and e.id != "n" and depth < 5:
+                    return val(defs[e.id].value, depth + 1)
+                if isinstance(e, ast.BinOp):
+                    l, r = val(e.left, depth), val(e.right, depth)
+                    return {ast.Add: lambda: l + r, ast.Sub: lambda: l - r, ast.Mult: lambda: l * r, ast.FloorDiv: lambda: l // r}[type(e.op)]()
+                return _int_eval(e, env)
+            if val(a) + val(b) != n:
+                bad = (n, val(a), val(b))
+                break
+        if bad is None:
+            ctx.ok("C20-i", site, "checked as integer formulas for n = 4..20")
+        else:
+            ctx.violation("C20-i", u.relpath, "gstm", f"{norm_src(a)} + {norm_src(b)}", f"for n = {bad[0]} the Gaussian part has {bad[1]} samples and the Student-t part {bad[2]}: "
+                          f"{bad[1] + bad[2]} samples are returned instead of {bad[0]}", line=stc[0].lineno, site=site)
+    except (IndexError, ValueError, KeyError) as e:
+        ctx.unrecognised("C20-i", site, f"sample counts of the two parts ({e})")
+    # rotations
+    f2 = u.func("celeux_two")
+    rots = [s_ for s_ in f2.body if isinstance(s_, ast.Assign) and isinstance(s_.targets[0], ast.Name) and s_.targets[0].id.startswith("rot_pi_")]
+    site = "celeux_two: rotation matrices"
+    if not rots:
+        ctx.unrecognised("C20-i", site, "no rot_pi_<k> matrices")
+        return
+    orient = {}
+    for s_ in rots:
+        name = s_.targets[0].id
+        try:
+            k = int(name.rsplit("_", 1)[1])
+            lst = next(n for n in ast.walk(s_.value) if isinstance(n, ast.List) and len(n.elts) == 2 and all(isinstance(x, ast.List) and len(x.elts) == 2 for x in n.elts))
+            m = [[_num_eval(x) for x in row.elts] for row in lst.elts]
+        except (ValueError, StopIteration, IndexError):
+            ctx.unrecognised("C20-i", site, f"{name} is not a literal 2x2 matrix")
+            return
+        c_, s__ = math.cos(math.pi / k), math.sin(math.pi / k)
+        close = lambda x, y: abs(x - y) < 1e-9
+        if close(m[0][0], c_) and close(m[1][1], c_) and close(m[0][1], -s__) and close(m[1][0], s__):
+            orient[name] = "+"
+        elif close(m[0][0], c_) and close(m[1][1], c_) and close(m[0][1], s__) and close(m[1][0], -s__):
+            orient[name] = "-"
+        else:
+            ctx.violation("C20-i", u.relpath, "celeux_two", norm_src(s_)[:120], f"{name} is not the rotation by pi/{k}", line=s_.lineno, site=site)
+            return
+    if len(set(orient.values())) == 1:
+        ctx.ok("C20-i", site, f"{sorted(orient)} are rotations by their angle, same orientation")
+    else:
+        ctx.violation("C20-i", u.relpath, "celeux_two", "; ".join(f"{k}: {v}" for k, v in sorted(orient.items())), f"the rotation matrices do not share one orientation ({orient}): "
+                      f"one of them rotates by the opposite angle, which flips the sign of the off-diagonal noise covariance it generates", line=rots[0].lineno, site=site)
+
+
 def gstm_labels(pm, ctx, u):
     f = u.func("gstm")
     locs = [s_ for s_ in f.body if isinstance(s_, ast.Assign) and isinstance(s_.targets[0], ast.Name) and s_.targets[0].id == "locations"]
@@ -267,6 +369,9 @@ def run(pm, ctx):
     student_construction(pm, ctx, u)
     ctx.rule("C20-g", "gstm: the Student-t samples carry the index of the location they were drawn around, distinct from the Gaussian labels", floor=2)
     gstm_labels(pm, ctx, u)
+    ctx.rule("C20-i", "gstm returns exactly n samples (Gaussian part + Student-t part = n for every n); the rotation matrices of celeux_two are rotations by the "
+             "angle their name states, all with the same orientation", floor=2)
+    sizes_and_rotations(pm, ctx, u)
     ctx.rule("C20-h", "informative variables come from the labelled mixture, dependent variables are affine in them plus noise, noise variables "
              "do not depend on the labels", floor=4)
     dependence_structure(pm, ctx, u)
@@ -603,4 +708,7 @@ def controls(pm, tier):
     mut("    u = generator.chisquare(df, n).reshape((-1, 1))", "    u = generator.chisquare(n, n).reshape((-1, 1))", "C20-f", "degrees of freedom of the mixing variable")
     mut("    nx = generator.multivariate_normal(np.zeros(d), scale, size=n)", "    nx = generator.multivariate_normal(loc, scale, size=n)", "C20-f", "location added twice")
     mut("    y = np.concatenate([y_gaussian, np.ones(n_student) * 3])", "    y = np.concatenate([y_gaussian, np.ones(n_student) * 2])", "C20-g", "Student-t samples labelled as a Gaussian component")
+    mut("    u = generator.chisquare(df, n).reshape((-1, 1))", "    u = generator.chisquare(df, size=nx.shape)", "C20-f", "one chi-square draw per coordinate")
+    mut("    n_student = n - n_gaussian", "    n_student = n // 4", "C20-i", "Student-t part loses a sample when n is not a multiple of 4")
+    mut("    rot_pi_6 = np.array([[np.sqrt(3) / 2, -0.5], [0.5, np.sqrt(3) / 2]])", "    rot_pi_6 = np.array([[np.sqrt(3) / 2, 0.5], [-0.5, np.sqrt(3) / 2]])", "C20-i", "rot_pi_6 rotates the other way")
     return out
